@@ -49,6 +49,21 @@ CLAIMED = {
         'note': TB + ' Does not decide torn-read freedom beyond "atomics + xor validation are in place" (memory-model argument).',
         'technique': 'custom static analysis: who-may-access + index provenance + sibling/inverse agreement + constant evaluation over finite parameter domains with a loop-idiom lemma',
     },
+    'C10': {
+        'text': 'Clause-limited static decision (level "other"), schedule-independent: (1) every condition-variable wait of the program is in '
+                'a predicate loop (or is a timed poll that tests first), its predicate fields are written only under the same mutex, and every '
+                'write that can release a waiter is followed by a notify (queue pools: the recognised empty->non-empty idiom, checked to test '
+                'all predicate queues); (2) all nine command enqueue sites push under the communicator mutex and wake the receiver on every '
+                'path; stop/quit arm their acknowledge counters first; (3) both stale-command purges erase the same types; (4) helper results '
+                'are accepted/sent only for the current job id, once; (5) hand-shake loop shapes: worker wait->poll->ack, engine stop->own '
+                'ack->poll until acknowledged, quit->poll until acknowledged, flag-sensitive "a search that ran is stopped"; (6) a wake-up '
+                'consumed by the engine thread\'s inner wait loop is re-armed or pending options are handled before it sleeps again. Right '
+                'level: these are the necessary structural conditions of "no lost wake-up / no stale result" for every interleaving; the '
+                'composed liveness property itself is model-checking territory and is not claimed.',
+        'design_ref': 'DESIGN.md section 2, C10',
+        'note': TB + ' Does not decide absence of deadlock / lost wake-up over all interleavings of the composed protocol.',
+        'technique': 'custom static analysis: lock-set dataflow, condition-variable discipline, must-pass-through / loop-shape rules on the CFG, sibling agreement of purge predicates',
+    },
     'C12': {
         'text': 'Clause-limited static decision (level "other"): (1) the on-demand generator object and the reserved-region flag of the '
                 'transposition table form an inductive class invariant - no method can return with a constructed-but-not-generated '
